@@ -576,3 +576,162 @@ Section Refinement.
     destruct (rs_errors r); [apply I; reflexivity|reflexivity].
   Qed.
 End Refinement.
+
+(** ** Part 5: the documented status rules *)
+Lemma is_method_refl m : is_method m m = true.
+Proof. apply bytes_eqb_refl. Qed.
+Lemma is_method_neq m n : m <> n -> is_method m n = false.
+Proof.
+  intro H. unfold is_method. destruct (bytes_eqb m n) eqn:E; [|reflexivity].
+  apply bytes_eqb_eq in E. contradiction.
+Qed.
+
+Section Rules.
+  Variable sch : schema.
+  Variable rq : request.
+
+  Ltac methods :=
+    repeat match goal with
+           | H : rq_method rq = _ |- _ => rewrite H in *; clear H
+           | H : rq_method rq <> ?m |- _ => rewrite (is_method_neq _ _ H) in *; clear H
+           | H : _ <> ?m |- context [is_method _ ?m] => rewrite (is_method_neq _ _ H)
+           end;
+    rewrite ?is_method_refl;
+    repeat match goal with
+           | |- context [is_method ?a ?b] =>
+               lazymatch a with rq_method _ => fail | _ => idtac end;
+               let v := eval vm_compute in (is_method a b) in
+               change (is_method a b) with v
+           end;
+    cbn [orb andb negb].
+
+  Lemma unknown_target_404 : unknown_target sch rq -> snd (operation_status sch rq) = [404%Z].
+  Proof.
+    intros [Hep | t Hep Hm | t id g Hep Hm Hg Hn | t id name [Hep|Hep] Hm Hp | t id name v [Hep|Hep] Hm Hp Hl];
+      unfold operation_status; rewrite Hep; methods; unfold fetch_statuses, outcome_statuses;
+      rewrite ?Hg, ?Hn, ?Hp, ?Hl; reflexivity.
+  Qed.
+
+  Lemma undefined_operation_405 : undefined_operation sch rq -> snd (operation_status sch rq) = [405%Z].
+  Proof.
+    intros [t id Hep H1 H2 H3 | t id name Hep H1 H2 | t id name Hep H1 H2 H3 H4 | t id Hep Hm Hg | t id Hep Hm Hd
+           | t id doc Hep Hm Hdec Ht Hi Hp | t doc Hep Hm Hdec Ht Hc | t id name value Hep Hm Hdec Hp
+           | t id name members v d bd f Hep [Hm|Hm] Hdec Hpar Hl Hr
+           | t id name members v d bd f rm Hep Hm Hdec Hpar Hl Hr
+           | t id name members v d bd f a Hep Hm Hdec Hpar Hl Hr];
+      unfold operation_status; rewrite Hep; methods; unfold update_rule;
+      rewrite ?Hg, ?Hd, ?Hdec, ?Ht, ?Hi, ?Hp, ?Hc, ?Hpar, ?Hl, ?Hr, ?bytes_eqb_refl; reflexivity.
+  Qed.
+
+  Lemma bytes_eqb_neq x y : x <> y -> bytes_eqb x y = false.
+  Proof. intro H. destruct (bytes_eqb x y) eqn:E; [apply bytes_eqb_eq in E; contradiction|reflexivity]. Qed.
+
+  Lemma conflict_409 : conflict sch rq -> snd (operation_status sch rq) = [409%Z].
+  Proof.
+    intros [t doc Hep Hm Hdec Hne | t id doc Hep Hm Hdec Hne | t id name v d r t' doc Hep Hm Hpar Hl Hlk Ht' Hdec Hne];
+      unfold operation_status; rewrite Hep; methods; unfold update_rule;
+      rewrite ?Hpar, ?Hl, ?Hlk, ?Ht', ?Hdec.
+    - rewrite (bytes_eqb_neq _ _ Hne). reflexivity.
+    - destruct Hne as [Hne|Hne]; rewrite (bytes_eqb_neq _ _ Hne), ?andb_false_r; reflexivity.
+    - rewrite (lookup_type_name _ _ _ Ht').
+      destruct Hne as [Hne|Hne]; rewrite (bytes_eqb_neq _ _ Hne), ?andb_false_r; reflexivity.
+  Qed.
+End Rules.
+
+(** ** Part 6: the theorems of Properties/C19.v *)
+Section Theorems.
+  Variable pmt : bytes -> pm_result.
+  Variable choose : list err -> err.
+  Hypothesis Hchoose : choose_ok choose.
+  Variable sch : schema.
+  Variable rq : request.
+
+  Let answer := serve_http fixed pmt choose sch rq.
+
+  Lemma served :
+    exists r, answer = Resp (final_status r) media_type (final_body r) (rs_call r) /\ response_wf r /\
+              In (final_status r) (snd (ref_status pmt sch rq)) /\
+              (rs_errors r = [] -> identity_and_links sch rq (wdata_of (rs_data r)) (rs_links r) = None).
+  Proof.
+    destruct (execute_request_spec pmt choose Hchoose sch rq) as (r & E & W & S & I).
+    exists r. split; [apply serve_http_eq; assumption|auto].
+  Qed.
+
+  (** without panicking; media type, jsonapi member, never both data and errors *)
+  Theorem ja_well_formed :
+    exists st data errors top c,
+      answer = Resp st media_type (WDoc (Some version_1_1) data errors top) c /\
+      (data <> WAbsent -> errors = []).
+  Proof.
+    destruct served as (r & -> & [_ Wd] & _ & _). unfold final_body.
+    destruct (data_marshals (rs_data r)).
+    - do 5 eexists. split; [reflexivity|]. intro Hd.
+      destruct (rs_errors r) eqn:Es; [reflexivity|]. rewrite (Wd ltac:(discriminate)) in Hd. contradiction Hd. reflexivity.
+    - do 5 eexists. split; [reflexivity|]. intro Hd. contradiction Hd. reflexivity.
+  Qed.
+
+  (** the status is that of the first error carrying one (500 if none does), 2xx without errors *)
+  Theorem ja_status st ct v data errors top c :
+    answer = Resp st ct (WDoc v data errors top) c ->
+    (errors <> [] -> st = errors_status errors) /\ (errors = [] -> (200 <= st < 300)%Z).
+  Proof.
+    destruct served as (r & -> & [Wst Wd] & _ & _). unfold final_body, final_status.
+    destruct (data_marshals (rs_data r)); intro H; inversion H; subst; clear H.
+    - destruct (rs_errors r) as [|e es]; cbn [map]; split.
+      + congruence.
+      + intros _. destruct Wst as [-> | ->]; cbn; lia.
+      + intros _. reflexivity.
+      + discriminate.
+    - split; [intros _; reflexivity|discriminate].
+  Qed.
+
+  (** the status is the reference status *)
+  Theorem ja_ref_status st ct bd c :
+    answer = Resp st ct bd c -> In st (snd (ref_status pmt sch rq)).
+  Proof. destruct served as (r & -> & _ & S & _). intro H; inversion H; subst. assumption. Qed.
+
+  (** resource objects are the addressed resources, with the standard links *)
+  Theorem ja_resource_identity st ct v data top c :
+    answer = Resp st ct (WDoc v data [] top) c -> identity_and_links sch rq data top = None.
+  Proof.
+    destruct served as (r & -> & _ & _ & I). unfold final_body.
+    destruct (data_marshals (rs_data r)); intro H; inversion H; subst; clear H.
+    apply I. destruct (rs_errors r); [reflexivity|discriminate].
+  Qed.
+
+  Lemma status_in_singleton n : snd (ref_status pmt sch rq) = [n] -> answer_status answer = Some n.
+  Proof.
+    intro H. destruct served as (r & -> & _ & S & _). rewrite H in S. destruct S as [<-|[]]. reflexivity.
+  Qed.
+
+  Theorem ja_406 : acceptable pmt (rq_accept rq) = false -> answer_status answer = Some 406%Z.
+  Proof. intro H. apply status_in_singleton. unfold ref_status. rewrite H. reflexivity. Qed.
+
+  Theorem ja_400_params :
+    acceptable pmt (rq_accept rq) = true ->
+    (exists k, In k (rq_query rq) /\ supported_parameter k = false) ->
+    answer_status answer = Some 400%Z.
+  Proof.
+    intros Ha [k [Hk Hs]]. apply status_in_singleton. unfold ref_status. rewrite Ha. cbn [negb].
+    assert (forallb supported_parameter (rq_query rq) = false) as ->; [|reflexivity].
+    destruct (forallb supported_parameter (rq_query rq)) eqn:E; [|reflexivity].
+    rewrite forallb_forall in E. rewrite (E k Hk) in Hs. discriminate.
+  Qed.
+
+  Section Gates.
+    Hypothesis Haccept : acceptable pmt (rq_accept rq) = true.
+    Hypothesis Hquery : forallb supported_parameter (rq_query rq) = true.
+
+    Lemma ref_gates : ref_status pmt sch rq = operation_status sch rq.
+    Proof. unfold ref_status. rewrite Haccept, Hquery. reflexivity. Qed.
+
+    Theorem ja_404 : unknown_target sch rq -> answer_status answer = Some 404%Z.
+    Proof. intro H. apply status_in_singleton. rewrite ref_gates. apply unknown_target_404. assumption. Qed.
+
+    Theorem ja_405 : undefined_operation sch rq -> answer_status answer = Some 405%Z.
+    Proof. intro H. apply status_in_singleton. rewrite ref_gates. apply undefined_operation_405. assumption. Qed.
+
+    Theorem ja_409 : conflict sch rq -> answer_status answer = Some 409%Z.
+    Proof. intro H. apply status_in_singleton. rewrite ref_gates. apply conflict_409. assumption. Qed.
+  End Gates.
+End Theorems.
